@@ -517,6 +517,11 @@ impl RelayInner {
                                         // failed send and acquiring the lock; only
                                         // shut down if still nobody is listening.
                                         if this.sender.receiver_count() == 0 {
+                                            // Hand the feedback receiver back first: the next
+                                            // subscribe() restarts the relay and takes it again
+                                            // (it used to die with this task, and the restart
+                                            // panicked on the empty slot).
+                                            *this.feedback_rx.lock() = Some(feedback_rx);
                                             this.started.store(false, Ordering::SeqCst);
                                             drop(guard);
                                             break;
